@@ -138,6 +138,48 @@ def r10_8(run):
     run.floor('R10.8', 'setters of FilesystemOnionService', k, 3)
 
 
+def r10_10(run):
+    """in-place edits are tracked for every list-typed option: the list-type predicate agrees with every option type's parser (shared
+    with R11.4)"""
+    from . import c11
+    c11.list_types_agree(run, 'R10.10')
+
+
+def r10_11(run):
+    """round trip of the one three-valued scalar type: Boolean+Auto.  parse() (what Tor says -> what reads return) and validate()
+    (what was assigned -> what is sent) partition the integers the same way: negative = auto (-1 <-> 'auto'), zero = 0, positive = 1.
+    Decided by evaluating both functions' tests on the representatives -2, -1, 0, 1, 2 (the value is only compared / tested)."""
+    ci = run.idx.cls('Boolean_Auto', MOD)
+    if ci is None:
+        raise AnchorVanished('torconfig.Boolean_Auto')
+    want = {-2: ('auto', -1), -1: ('auto', -1), 0: (0, 0), 1: (1, 1), 2: (1, 1)}
+    for fname, idx_ in (('validate', 0), ('parse', 1)):
+        u = run.idx.find_method(ci, fname)
+        g = cfg_of(u)
+        p = u.params[1]
+        for v in sorted(want):
+            def hook(node, val, trail, v=v):
+                r = eval_small(node.ast, {p: v, 'int(%s)' % p: v})
+                return None if r is UNKNOWN else bool(r)
+            outs = set()
+            for p_ in g.paths(eval_hook=hook, follow_exc=False):
+                run.paths_enumerated += 1
+                if p_.exit == 'raise':
+                    continue
+                rets = [n.ast for n, _ in p_.steps if n.kind == 'stmt' and isinstance(n.ast, ast.Return)]
+                if rets and rets[-1].value is not None:
+                    rv = rets[-1].value
+                    if isinstance(rv, ast.IfExp):
+                        t_ = eval_small(rv.test, {p: v, 'int(%s)' % p: v})
+                        rv = None if t_ is UNKNOWN else (rv.body if t_ else rv.orelse)
+                    outs.add(const(rv) if rv is not None and const(rv) is not NOCONST else ('?' + (src(rv) if rv is not None else '')))
+            ok = outs == set([want[v][idx_]])
+            run.ob('R10.11', u, u.node, 'Boolean_Auto.%s(%d) is %r' % (fname, v, want[v][idx_]), ok if not any(str(o).startswith('?') for o in outs) else None,
+                   slot='boolean-auto:%s:%d' % (fname, v),
+                   message='Boolean_Auto.%s(%d) gives %s, wanted %r: the value sent / read for a three-valued option assigned %d is not the one parse() and validate() '
+                           'agree on (negative = auto)' % (fname, v, sorted(map(str, outs)), want[v][idx_], v))
+
+
 def r10_9(run):
     """one pending entry per option: the pending set is keyed by Tor's canonical spelling, whatever capitalisation the caller used
     (otherwise two assignments to one option under different spellings are both sent) - rule R11.2, shared"""
@@ -490,6 +532,8 @@ RULES = [
     ('R10.7', 'setter post-condition: every assignment reaches unsaved[name] = value; every list value is wrapped for its own option', r10_7),
     ('R10.8', 'onion-service setters mark HiddenServices pending; the port list is tracked', r10_8),
     ('R10.9', 'name routing: config / parsers / unsaved are indexed only with _find_real_name results (R11.2 borrowed)', r10_9),
+    ('R10.10', 'is_list_config_type evaluated per declared option type against what its parse() returns', r10_10),
+    ('R10.11', 'sibling agreement of Boolean_Auto.parse / validate on the sign classes of the value (representatives -2..2)', r10_11),
     ('R10.6', 'identity flow: the pending list object itself becomes the current value (no copy / re-wrap on the list leg)', r10_6),
     ('R10.1', 'effect analysis on the call graph: nothing reachable from attribute access / list wrappers sends a command', r10_1),
     ('R10.2', 'tracked mutators: the six list mutators are wrapped; wrapper calls on_modify and the original once; mark_unsaved aliases the live list', r10_2),
@@ -501,6 +545,8 @@ RULES = [
 from ..selftest import M  # noqa: E402
 F = 'txtorcon/torconfig.py'
 MUTANTS = [
+    M('auto-only-minus-one', F, "        s = int(s)\n        if s < 0:\n            return 'auto'", "        s = int(s)\n        if s == -1:\n            return 'auto'", ['R10.11']),
+    M('list-types-by-tuple', F, "    return 'List' in klass.__name__ or klass.__name__ in ['HiddenServices']", "    return klass in (LineList, CommaList, RouterList)", ['R10.10']),
     M('ports-setter-no-mark', 'txtorcon/onion.py', "            functools.partial(self._config.mark_unsaved, 'HiddenServices'),\n        )\n        self._config.mark_unsaved('HiddenServices')\n\n    @property\n    def directory(self):", "            functools.partial(self._config.mark_unsaved, 'HiddenServices'),\n        )\n\n    @property\n    def directory(self):", ['R10.8']),
     M('hs-leg-breaks', F, "                            args.append(k)\n                            args.append(v)\n                continue\n", "                            args.append(k)\n                            args.append(v)\n                break\n", ['R10.3']),
     M('wrap-only-without-validate', F, "                value = self.parsers[name].validate(value, self, name)\n            if isinstance(value, list):", "                value = self.parsers[name].validate(value, self, name)\n            elif isinstance(value, list):", ['R10.7']),
@@ -518,6 +564,7 @@ MUTANTS = [
     M('clear-before-ack', F, "        if self.protocol:\n            d = self.protocol.set_conf(*args)\n            d.addCallback(self._save_completed)\n            return d", "        if self.protocol:\n            d = self.protocol.set_conf(*args)\n            self.unsaved.clear()\n            d.addCallback(self._save_completed)\n            return d", ['R10.5']),
 ]
 TWINS = [
+    M('list-types-by-issubclass', F, "    return 'List' in klass.__name__ or klass.__name__ in ['HiddenServices']", "    return issubclass(klass, (LineList, CommaList, RouterList))"),
     M('items-snapshot', F, "        for (key, value) in self.unsaved.items():", "        for (key, value) in list(self.unsaved.items()):"),
     M('orig-before-on_modify-result', F, "        obj = args[0]\n        obj.on_modify()\n        return orig(*args)", "        obj = args[0]\n        obj.on_modify()\n        result = orig(*args)\n        return result"),
     M('needs_save-bool', F, "        return len(self.unsaved) > 0", "        return bool(len(self.unsaved))"),
